@@ -601,6 +601,13 @@ def _index_arg_ok(prog, fn, b, t, argi, depth=0):
         return True, "offset recorded by the up-front UTF-8 validation"
     if calls and all(callee_is(c, "len") for c in calls) and not any(lf[0] == "param" for lf in leaves) and not places:
         return True, "the slice length itself"
+    direct = fn.src(l)
+    if direct[0] == "call" and callee_is(direct[2], "min") and len(direct[2]["args"]) == 2:
+        for a2 in direct[2]["args"]:
+            l2 = op_local(a2)
+            s2 = fn.src(l2) if l2 is not None else ("multi",)
+            if s2[0] == "call" and callee_is(s2[2], "len"):
+                return True, "clamped with min(index, len())"
     # dominated by a comparison against a len() whose out-of-range edge does not reach the call
     for bb, i, s in fn.assigns():
         rv = s["rv"]
